@@ -104,6 +104,8 @@ func (g *Gen) ruleMatches(r *CallRule, c *ssa.CallCommon, prefix string) bool {
 		} else if recv := f.Signature.Recv(); recv != nil {
 			names = append(names, "."+f.Name())
 		}
+	} else if b, ok := c.Value.(*ssa.Builtin); ok {
+		names = append(names, b.Name())
 	} else {
 		// dynamic call through a variable / field: match on its source text
 		names = append(names, g.textOf(c.Value), "."+lastSeg(g.textOf(c.Value)))
@@ -284,7 +286,18 @@ func (g *Gen) checkStoreRules(x *ssa.Store, a *Addr, v Val, st *State) {
 
 func (g *Gen) execCall(x *ssa.Call, c *ssa.CallCommon, st *State, deferred bool) {
 	if b, ok := c.Value.(*ssa.Builtin); ok {
+		var matched []*CallRule
+		if b.Name() == "append" || b.Name() == "delete" || b.Name() == "copy" {
+			matched = g.callRulesPre(c, st, "")
+		}
 		g.execBuiltin(x, b, c, st)
+		if len(matched) > 0 {
+			var res []Val
+			if v, ok := g.vals[x]; ok {
+				res = []Val{v}
+			}
+			g.callRulesPost(matched, c, res, st, "true")
+		}
 		return
 	}
 	matched := g.callRulesPre(c, st, "")
@@ -625,6 +638,14 @@ func (g *Gen) applyContract(spec *FuncSpec, c *ssa.CallCommon, st *State) []Val 
 	for i := 0; i < sig.Results().Len(); i++ {
 		res = append(res, g.freshVal("r_"+mangle(lastSeg(spec.Name)), sig.Results().At(i).Type(), st, st.reach))
 	}
+	if specMentionsNow(spec) {
+		n := g.fresh("now")
+		g.declare(n, "Int")
+		if v, ok := st.ghosts["$now"]; ok {
+			g.assume("true", fmt.Sprintf("(>= %s %s)", n, v.T))
+		}
+		st.ghosts["$now"] = Val{T: n, S: sInt}
+	}
 	post := g.specEnv(st, pre)
 	post.vars = bind
 	post.results = res
@@ -637,6 +658,9 @@ func (g *Gen) applyContract(spec *FuncSpec, c *ssa.CallCommon, st *State) []Val 
 	for _, cl := range spec.Ensures {
 		if g.W.isRefuted(spec, cl.Label) {
 			continue // refuted clauses (known findings) are never assumed
+		}
+		if mentionsGhost(cl.E, spec) {
+			continue // clause over the callee's own ghost monitors: internal to the callee
 		}
 		g.assume(st.reach, post.evalBool(cl.E))
 	}
@@ -788,7 +812,7 @@ func (g *Gen) execBuiltin(x *ssa.Call, b *ssa.Builtin, c *ssa.CallCommon, st *St
 			if b.Name() == "ssa:wrapnilchk" {
 				g.vals[x] = g.val(c.Args[0], st)
 			} else if _, isTuple := x.Type().(*types.Tuple); !isTuple {
-				g.vals[x] = Val{T: "0", S: sRef, G: x.Type()}
+				g.vals[x] = g.zero(x.Type())
 			}
 		}
 	case "recover":
@@ -834,9 +858,11 @@ func (g *Gen) execAppend(x *ssa.Call, c *ssa.CallCommon, st *State) {
 	res := sIte(zeroN, s.T, sIte(fits,
 		fmt.Sprintf("(mk-slice %s %s %s %s)", sarr, soff, newLen, scap),
 		fmt.Sprintf("(mk-slice %s %s %s %s)", id, g.idxLit(0), newLen, ncap)))
-	r := Val{T: res, S: sSlice, G: x.Type()}
-	g.setVal(x, r)
-	rv := g.vals[x]
+	rn := g.fresh("app")
+	g.declare(rn, "Slice")
+	g.assume("true", sEq(rn, res))
+	rv := Val{T: rn, S: sSlice, G: x.Type()}
+	g.vals[x] = rv
 	// element effects
 	et := sl.Elem()
 	if stt, ok := et.Underlying().(*types.Struct); ok && !isTimeType(et) && !isOpaqueStruct(et) {
@@ -917,4 +943,65 @@ func (g *Gen) execCopy(x *ssa.Call, c *ssa.CallCommon, st *State) {
 	}
 	g.assume("true", fmt.Sprintf("(forall ((k %[1]s)) (! (= (select (select %[2]s %[3]s) k) (ite (and %[4]s %[5]s) %[6]s (select (select %[7]s %[3]s) k))) :pattern ((select (select %[2]s %[3]s) k))))",
 		g.idxSort().SMT(), nh, darr, g.idxLe(doff, "k"), g.idxLt("k", g.idxAdd(doff, n)), src, h))
+}
+
+func specMentionsNow(spec *FuncSpec) bool {
+	for _, c := range spec.Ensures {
+		if strings.Contains(c.Src, "now") {
+			return true
+		}
+	}
+	return false
+}
+
+func mentionsGhost(e Expr, spec *FuncSpec) bool {
+	if len(spec.Ghosts) == 0 {
+		return false
+	}
+	names := map[string]bool{}
+	for _, gh := range spec.Ghosts {
+		names[gh.Name] = true
+	}
+	found := false
+	var walk func(e Expr)
+	walk = func(e Expr) {
+		switch n := e.(type) {
+		case EIdent:
+			if names[n.Name] {
+				found = true
+			}
+		case EUnary:
+			walk(n.X)
+		case EBin:
+			walk(n.L)
+			walk(n.R)
+		case ESel:
+			walk(n.X)
+		case EIndex:
+			walk(n.X)
+			walk(n.I)
+		case ESlice:
+			walk(n.X)
+			if n.Lo != nil {
+				walk(n.Lo)
+			}
+			if n.Hi != nil {
+				walk(n.Hi)
+			}
+		case ECall:
+			for _, a := range n.Args {
+				walk(a)
+			}
+		case EQuant:
+			walk(n.Body)
+		case EOld:
+			walk(n.X)
+		case ECond:
+			walk(n.C)
+			walk(n.A)
+			walk(n.B)
+		}
+	}
+	walk(e)
+	return found
 }
